@@ -278,8 +278,10 @@ def keyword_sets(root):
     """lib/keywords.cpp after preprocessing: name -> set of words, and per getAll overload the sets it can return."""
     import subprocess
     src = os.path.join(root, 'lib', 'keywords.cpp')
-    r = subprocess.run(['clang++', '-E', '-P', '-std=c++11', '-nostdinc++', '-I', os.path.join(root, 'lib'), src],
+    r = subprocess.run(['clang++', '-E', '-P', '-std=c++11', '-I', os.path.join(root, 'lib'), src],
                        capture_output=True, text=True)
+    if r.returncode != 0:
+        raise AnalysisBroken('lib/keywords.cpp does not preprocess: ' + r.stderr[-300:])
     txt = r.stdout
     sets = {}
     for m in re.finditer(r'static\s+const\s+std::unordered_set<std::string>\s+(\w+)\s*=\s*\{(.*?)\};', txt, re.S):
